@@ -100,7 +100,9 @@ func TestVerif_C49(t *testing.T) {
 		subset(a + "%")
 		subset(a + ".0%")
 		subset(a + ".5%")
-		subset("." + a + "%")
+		if len(a) <= 4 {
+			subset("." + a + "%") // (longer fractions are rounded by the float parser)
+		}
 		subset("-" + a + "%")
 		subset("+" + a + "%")
 		for _, u := range []string{"", "b", "B", "k", "K", "m", "M", "g", "G", "t", "T"} {
